@@ -160,6 +160,9 @@ fn collect_msgs<'a>(steps: &'a [Step], out: &mut HashMap<u32, &'a Msg>) {
             out.insert(msg.id, &**msg);
             collect_msgs(&msg.steps, out);
         }
+        if let Step::Par(inner) = s {
+            collect_msgs(inner, out);
+        }
     }
 }
 
